@@ -68,6 +68,17 @@ func (g *gen) Add(name string, typs []types.Type) (string, error) {
 		return "", fmt.Errorf("%s, does not return a function", name)
 	}
 	retSig = derive.RenameBlankIdentifierWith(retSig, "innerParam_")
+	// the combined function takes the outer and the inner parameters: their names must not clash
+	outer := make(map[string]bool)
+	for i := 0; i < params.Len(); i++ {
+		outer[params.At(i).Name()] = true
+	}
+	for i := 0; i < retSig.Params().Len(); i++ {
+		if outer[retSig.Params().At(i).Name()] {
+			retSig = derive.RenameAllWith(retSig, "innerParam_")
+			break
+		}
+	}
 	newTup := types.NewTuple(types.NewVar(retVar.Pos(), retVar.Pkg(), retVar.Name(), retSig))
 	sig = types.NewSignature(sig.Recv(), sig.Params(), newTup, sig.Variadic())
 	return g.SetFuncName(name, derive.RenameBlankIdentifier(sig))
